@@ -1,4 +1,4 @@
-import Litep2pVerif.Proofs.ReqResp.Inbound
+import Litep2pVerif.Proofs.ReqResp.Written
 /-!
 Consequences of the invariants `Inv`, `Own`, `Sub`, `Inb` used by the C13 property theorems.
 -/
